@@ -14,7 +14,7 @@ func init() { register("C02", "other", checkC02) }
 
 func checkC02(w *World, r *Result) {
 	r.Explanation = "Decides structural necessary conditions on generator/go/gounions (and the union table it consumes): TPL-C02a in every instantiation of the union template the marshalling wrapper is a struct with exactly the untagged fields Kind string / Data any and the unmarshalling one Kind string / Data json.RawMessage, the Marshal switch is on item.Data.(type) and the Unmarshal switch on wr.Kind, both ending in a default; AGR-C02b the Kind literal written and the Kind literal matched are the same value, the member's local Go type name (the vocabulary the TypeScript, Dart and SQL generators use too); AGR-C02c one encoding case and one decoding case per member, appended in the same loop iteration; the shadow struct gets one field, one to-wrapper and one from-wrapper entry per field of the struct, in lock-step; FLW-C02d the struct tag of every mirrored field is carried into the shadow struct (so every other field keeps the key encoding/json gives it); AGR-C02e every field type is handed to the generator whether or not the struct itself needs a wrapper (nested types in other files get their methods); AGR-C02w a field is replaced by its wrapper exactly when its analysed type is a union, with `<Union>Wrapper{item.F}` on the way out and `wr.F.Data` on the way in; TPL-C02f named slices/maps of unions wrap and unwrap element-wise; AGR-C11f the union table lists every implementer (rule shared with C11); TPL-1 the templates parse. Does not decide: deep equality of the round trip, nil/empty equivalence, encoding/json's behaviour on the shadow struct."
-	r.Rules = []string{"TPL-C02a", "AGR-C02b", "AGR-C02c", "FLW-C02d", "AGR-C02e", "AGR-C02w", "TPL-C02f", "AGR-C11f", "TPL-1"}
+	r.Rules = []string{"TPL-C02a", "AGR-C02b", "AGR-C02c", "FLW-C02d", "AGR-C02e", "AGR-C02w", "TPL-C02f", "TPL-C02g", "AGR-C11f", "TPL-1"}
 	kindProvenance(w, r, "AGR-C02b", "generator/go/gounions.jsonForUnion", 2)
 	checkUnionTemplate(w, r)
 	checkUnionLockstep(w, r)
@@ -62,6 +62,7 @@ func checkUnionTemplate(w *World, r *Result) {
 		Undecided("no instantiation of the union template")
 	}
 	nOK := 0
+	badExit := false
 	for _, in := range insts {
 		fset := token.NewFileSet()
 		f, err := parser.ParseFile(fset, "gen.go", goSource(in.text), parser.SkipObjectResolution)
@@ -151,12 +152,46 @@ func checkUnionTemplate(w *World, r *Result) {
 			}
 			sOK = md && ud && mc == uc && mc == in.rep
 		}
+		// TPL-C02g: between the decoding of the wrapper and the Kind switch, the only early exit is the error of
+		// json.Unmarshal: every successfully decoded wrapper reaches the dispatch
+		if sOK {
+			for _, st := range unmarshal.Body.List {
+				if st.Pos() >= uSwitch.Pos() {
+					break
+				}
+				ast.Inspect(st, func(n ast.Node) bool {
+					is, ok := n.(*ast.IfStmt)
+					if !ok {
+						return true
+					}
+					exits := false
+					ast.Inspect(is.Body, func(m ast.Node) bool {
+						if _, ok := m.(*ast.ReturnStmt); ok {
+							exits = true
+						}
+						return true
+					})
+					if !exits {
+						return true
+					}
+					c := types.ExprString(is.Cond)
+					if be, ok := is.Cond.(*ast.BinaryExpr); !(ok && be.Op == token.NEQ && types.ExprString(be.Y) == "nil" && isIdentExpr(be.X)) {
+						r.bad("TPL-C02g", fi.Name, "early exit before the Kind switch: if "+c, fnPos(w, fi), "the generated UnmarshalJSON returns before the switch on wr.Kind under `"+c+"`, which is not the error test of json.Unmarshal: a well-formed {Kind, Data} document can bypass the dispatch and the union comes back nil (member identity lost)")
+						badExit = true
+					}
+					return true
+				})
+			}
+		}
 		if mOK && uOK && sOK {
 			nOK++
 		} else {
 			r.bad("TPL-C02a", fi.Name, "wire format of the union wrapper", fnPos(w, fi), "an instantiation of the union template does not have the wire shape {Kind string, Data <member JSON>} (marshal fields "+mapStr(mf)+", unmarshal fields "+mapStr(uf)+"; tags or switch subjects differ)")
 			return
 		}
+	}
+	if !badExit {
+		r.ok("TPL-C02g", fi.Name, "every decoded wrapper reaches the Kind switch", fnPos(w, fi), "in all instantiations the only return before the switch on wr.Kind is under `err != nil`", true)
 	}
 	r.ok("TPL-C02a", fi.Name, "wire format of the union wrapper", fnPos(w, fi), "all "+itoa(nOK)+" instantiations: untagged {Kind string; Data any} / {Kind string; Data json.RawMessage}, type switch on item.Data, switch on wr.Kind, one case per member on both sides plus default", true)
 }
@@ -415,4 +450,9 @@ func checkElementWise(w *World, r *Result) {
 		}
 		r.cond(good, "TPL-C02f", fi.Name, "element-wise wrapping and unwrapping", fnPos(w, fi), "each element is wrapped on Marshal and its Data taken back on Unmarshal: "+strings.Join(wt.patterns, "; "), "the named slice/map template does not wrap every element and restore every element's Data ("+missing+")")
 	}
+}
+
+func isIdentExpr(e ast.Expr) bool {
+	_, ok := e.(*ast.Ident)
+	return ok
 }
